@@ -1638,6 +1638,8 @@ func (fx *FnExec) execSelect(st *State, in *ssa.Select) {
 	if in.Blocking {
 		fx.blockingPoint(st, "select", in.Pos(), chans)
 	}
+	// `callsite select#n asserts e`: clauses about the state in which the n-th select of the function waits
+	fx.checkCallSiteAsserts(st, "select", in.Pos(), nil, nil)
 	tup := in.Type().(*types.Tuple)
 	idx := e.c.fresh("sel_idx", SInt)
 	lo := "0"
